@@ -120,6 +120,9 @@ impl Agg {
             match m {
                 Msg::R(r) => self.absorb_r(r),
                 Msg::V(v) => self.violations.push(v),
+                Msg::D(t, d) => {
+                    self.digests.insert(t, d);
+                }
                 Msg::Died { tag, status, diag, item } => self.deaths.push((tag, status, diag, item)),
                 Msg::Broken(e) => self.broken.push(e),
             }
@@ -193,11 +196,20 @@ pub fn check(prop: &str, tier_name: &str) -> i32 {
     }
     let mut nondet = Vec::new();
     for (tag, d) in &a1.digests {
-        if a2.digests.get(tag) != Some(d) {
-            nondet.push(tag.clone());
+        if let Some(d2) = a2.digests.get(tag) {
+            if d2 != d {
+                nondet.push(tag.clone());
+            }
         }
     }
-    let selftest_ok = nondet.is_empty() && a1.digests.len() as u64 >= t.selftest.saturating_sub(a1.deaths.len() as u64 * 2);
+    // worlds without a digest must be exactly those that killed their worker, in both runs
+    let dead = |a: &Agg| -> BTreeSet<String> { a.deaths.iter().filter(|d| d.1 != "exit 3").map(|d| d.0.clone()).collect() };
+    let hung = |a: &Agg| -> BTreeSet<String> { a.deaths.iter().filter(|d| d.1 == "exit 3").map(|d| d.0.clone()).collect() };
+    if dead(&a1) != dead(&a2) {
+        nondet.push(format!("worker deaths differ: {:?} vs {:?}", dead(&a1), dead(&a2)));
+    }
+    let expect = |a: &Agg| t.selftest as usize - dead(a).len() - hung(a).len();
+    let selftest_ok = nondet.is_empty() && a1.digests.len() == expect(&a1) && a2.digests.len() == expect(&a2);
     println!("simc: self-test: {} seeds run twice ({} and {} workers), {} digest mismatches", a1.digests.len(), 1.max(nw / 4), nw, nondet.len());
     if !selftest_ok {
         // For C05 an uncontrolled difference between two executions of one world is itself a
@@ -306,7 +318,7 @@ pub fn check(prop: &str, tier_name: &str) -> i32 {
                 prop: prop.to_string(),
                 class: "ABORT".into(),
                 key,
-                detail: format!("worker process died ({}): {}", status, diag.lines().last().unwrap_or("")),
+                detail: format!("worker process died ({}): {}", status, diag.lines().find(|l| l.contains("overflowed its stack") || l.contains("memory allocation of") || l.contains("panicked at")).or(diag.lines().last()).unwrap_or("")),
                 job_label: w.jobs.last().map(|j| j.label.clone()).unwrap_or_default(),
                 job_key: w.jobs.last().map(|j| j.key()).unwrap_or(0),
                 worlds: vec![w],
@@ -333,6 +345,19 @@ pub fn check(prop: &str, tier_name: &str) -> i32 {
                 return 2;
             }
         }
+    }
+    if std::env::var("VERIF_TRIAGE_ONLY").is_ok() {
+        for (key, vs) in &by_key {
+            let count = vs.len() as u64 + agg.suppressed.get(key).copied().unwrap_or(0);
+            let listed = known.iter().any(|k| k.prop == prop && k.key == *key);
+            println!("TRIAGE {} x{} key={}", if listed { "known" } else { "UNLISTED" }, count, key);
+            for v in vs.iter().take(2) {
+                let src = v.worlds.last().and_then(|w| w.jobs.last()).map(|j| String::from_utf8_lossy(&j.source.0).chars().take(200).collect::<String>()).unwrap_or_default();
+                println!("    {} | {} | args {:?} | {}\n      src: {:?}", v.tag, v.job_label, v.worlds.last().and_then(|w| w.jobs.last()).map(|j| j.args.clone()), v.detail.chars().take(200).collect::<String>(), src);
+            }
+        }
+        let _ = std::fs::remove_dir_all(crate::pool::scratch_base());
+        return if by_key.keys().any(|k| !known.iter().any(|kf| kf.prop == prop && kf.key == *k)) { 1 } else { 0 };
     }
     let mut known_hits: BTreeMap<String, u64> = BTreeMap::new();
     let mut reported = 0;
@@ -470,25 +495,28 @@ fn classify_death(status: &str, diag: &str) -> String {
     }
 }
 
-/// Stack overflows and allocation failures are keyed by the most repeated token of the damaged input.
+/// Worker deaths are keyed by how the process died and by the coarse shape of the input: a cyclic
+/// include fault, a long repetition (some token occurs >= 500 times), or the base program otherwise.
 fn abort_key(class: &str, w: &World) -> String {
-    let src = w.jobs.last().map(|j| j.source.0.clone()).unwrap_or_default();
+    let job = w.jobs.last();
+    let src = job.map(|j| j.source.0.clone()).unwrap_or_default();
+    let inc: Vec<String> = job
+        .map(|j| j.faults.iter().filter(|f| f.starts_with("include:self_include") || f.starts_with("include:mutual_include")).map(|f| f.split(':').nth(1).unwrap_or("").to_string()).collect())
+        .unwrap_or_default();
+    if !inc.is_empty() {
+        return format!("ABORT|{}|cyclic include", class);
+    }
     let toks = faults::tokens(&src);
     let mut counts: BTreeMap<&[u8], usize> = BTreeMap::new();
     for t in &toks {
         *counts.entry(&src[t.0..t.1]).or_insert(0) += 1;
     }
-    let top = counts.iter().max_by_key(|(_, c)| **c).map(|(t, c)| (String::from_utf8_lossy(t).to_string(), *c));
-    match top {
-        Some((t, c)) if c >= 500 => format!("ABORT|{}|repeated {}", class, t),
-        _ => {
-            let inc = w.jobs.last().map(|j| j.faults.iter().filter(|f| f.starts_with("include:")).map(|f| f.split(':').nth(1).unwrap_or("").to_string()).collect::<Vec<_>>().join("+")).unwrap_or_default();
-            if !inc.is_empty() {
-                format!("ABORT|{}|include {}", class, inc)
-            } else {
-                format!("ABORT|{}|other", class)
-            }
-        }
+    let top = counts.values().max().copied().unwrap_or(0);
+    if top >= 500 {
+        format!("ABORT|{}|long repetition", class)
+    } else {
+        let label = job.map(|j| j.label.split(' ').next().unwrap_or("").to_string()).unwrap_or_default();
+        format!("ABORT|{}|{}", class, label)
     }
 }
 
@@ -531,7 +559,7 @@ fn reproduces(prop: &str, class: &str, key: &str, worlds: &[World]) -> Result<bo
             }
             if class == "ABORT" {
                 let c = classify_death(&status, &diag);
-                Ok(key.starts_with(&format!("ABORT|{}|", c)))
+                Ok(key.starts_with(&format!("ABORT|{}|", c)) && worlds.last().map(|w| abort_key(&c, w) == key).unwrap_or(false))
             } else {
                 Ok(false)
             }
@@ -878,4 +906,36 @@ pub fn one(file: &str, args: &[String]) -> i32 {
         }
     }
     0
+}
+
+/// Debug aid: run a seed range and print every raw message.
+pub fn dbg(prop: &str, from: u64, to: u64) -> i32 {
+    let seed = verif_seed();
+    let base = mix(seed, if prop == "C05" { 0xC05 } else { 0xC16 });
+    let rx = run_pool(n_workers().min(((to - from) as usize).max(1)), batches(prop, base, from, to, 8, true));
+    for m in rx {
+        match m {
+            Msg::R(r) => println!("R worlds={:?} violations={:?} suppressed={:?}", r.stats.get("worlds"), r.stats.get("violations"), r.suppressed),
+            Msg::D(..) => {}
+            Msg::V(v) => println!("V {} {} | {} | {}", v.tag, v.key, v.job_label, v.detail.chars().take(200).collect::<String>()),
+            Msg::Died { tag, status, diag, .. } => println!("DIED {} {} | {}", tag, status, diag.lines().last().unwrap_or("")),
+            Msg::Broken(e) => println!("BROKEN {}", e),
+        }
+    }
+    0
+}
+
+/// Debug aid: print the world a tag denotes as a replay file.
+pub fn dump(prop: &str, tag: &str) -> i32 {
+    let root = verif_root();
+    let corpus = load_corpus(&root).unwrap();
+    let base = mix(verif_seed(), if prop == "C05" { 0xC05 } else { 0xC16 });
+    match world_of_tag(prop, base, tag, &corpus) {
+        Some(w) => {
+            let rf = ReplayFile { property: prop.into(), violation_class: "?".into(), violation_key: "?".into(), detail: tag.into(), cargo_features: features().into(), worlds: vec![w] };
+            println!("{}", serde_json::to_string_pretty(&rf).unwrap());
+            0
+        }
+        None => 2,
+    }
 }
